@@ -100,3 +100,40 @@ pub open spec fn hex_digits(n: nat) -> Seq<u8>
 pub open spec fn crlf() -> Seq<u8> { seq![13u8, 10u8] }
 pub open spec fn min2(a: int, b: int) -> int { if a < b { a } else { b } }
 pub open spec fn min3(a: int, b: int, c: int) -> int { min2(min2(a, b), c) }
+
+// ---- str::parse::<F>() : generic assumed contract over an uninterpreted parser, made explicit for u64 ----
+#[verifier::external_trait_specification]
+pub trait ExFromStr: Sized {
+    type ExternalTraitSpecificationFor: core::str::FromStr;
+    type Err;
+    fn from_str(s: &str) -> Result<Self, Self::Err>;
+}
+pub uninterp spec fn parse_any<F>(s: Seq<u8>) -> Option<F>;
+pub assume_specification<F: core::str::FromStr> [str::parse::<F>] (s: &str) -> (r: Result<F, <F as core::str::FromStr>::Err>)
+    ensures match parse_any::<F>(str_bytes(s)) { Some(n) => r is Ok && r->Ok_0 == n, None => r is Err };
+
+pub open spec fn dec_val(c: u8) -> Option<nat> { if 48 <= c <= 57 { Some((c - 48) as nat) } else { None } }
+pub open spec fn dec_str_val(b: Seq<u8>) -> Option<nat>
+    decreases b.len()
+{
+    if b.len() == 0 { None }
+    else if b.len() == 1 { dec_val(b[0]) }
+    else {
+        match (dec_str_val(b.subrange(0, b.len() - 1)), dec_val(b[b.len() - 1])) {
+            (Some(h), Some(d)) => Some(h * 10 + d),
+            _ => None,
+        }
+    }
+}
+/// `"..".parse::<u64>()`: optional leading '+', then >= 1 decimal digits whose value fits u64
+pub open spec fn parse_dec_u64(b: Seq<u8>) -> Option<u64> {
+    let d = if b.len() > 0 && b[0] == 43u8 { b.subrange(1, b.len() as int) } else { b };
+    match dec_str_val(d) {
+        Some(v) => if v <= u64::MAX { Some(v as u64) } else { None },
+        None => None,
+    }
+}
+#[verifier::external_body]
+pub broadcast proof fn axiom_parse_u64(b: Seq<u8>)
+    ensures #[trigger] parse_any::<u64>(b) == parse_dec_u64(b)
+{}
